@@ -295,9 +295,26 @@ struct H {
     }
     void op_make_scalar() {
         cd z;
-        int k = c.weighted({8, 1});
-        if (k == 0) z = gen_gamma(); else z = (cd[]){cd(0, 0), cd(1, 0), cd(-1, 0)}[c.draw(3)];
-        c.note("make_scalar(%.6g%+.6gj)", z.real(), z.imag());
+        int k = c.weighted({8, 1, 4});       // new alternatives at the END: recorded tapes keep their meaning
+        bool special = false;
+        if (k == 0) z = gen_gamma();
+        else if (k == 1) { z = (cd[]){cd(0, 0), cd(1, 0), cd(-1, 0)}[c.draw(3)]; c.label("scalar:exactly-0/+-1"); }
+        else {
+            // exact special values a continuum never hits: only gamma EXACTLY 0, +1, -1 may share the predefined handles
+            special = true;
+            static const double one[] = {1.0, -1.0};
+            switch (c.draw(8)) {
+            case 0: z = cd(one[c.draw(2)], (double[]){0.25, -2.0, 1e-300, -4.9406564584124654e-324, 1.0, -1.0}[c.draw(6)]); c.label("scalar:re=+-1,im!=0"); break;
+            case 1: z = cd(c.boolean() ? 0.0 : -0.0, (double[]){0.5, -0.25, 1e-300, 2.0}[c.draw(4)]); c.label("scalar:re=0,im!=0"); break;
+            case 2: z = cd((double[]){0.37, -0.62, 2.0, -1.5, 0.999, 1.001}[c.draw(6)], c.boolean() ? 0.0 : -0.0); c.label("scalar:im=0,generic-re"); break;
+            case 3: z = cd(c.boolean() ? 0.0 : -0.0, one[c.draw(2)]); c.label("scalar:+-j"); break;
+            case 4: z = (cd[]){cd(1e-300, 0), cd(0, 1e-300), cd(-1e-300, 1e-300), cd(4.9406564584124654e-324, 0), cd(2.2250738585072014e-308, -2.2250738585072014e-308)}[c.draw(5)]; c.label("scalar:tiny"); break;
+            case 5: z = cd((double[]){std::nextafter(1.0, 2.0), std::nextafter(1.0, 0.0), std::nextafter(-1.0, 0.0), std::nextafter(-1.0, -2.0)}[c.draw(4)], 0.0); c.label("scalar:one-ulp-from-+-1"); break;
+            case 6: z = cd((double[]){1.0, -1.0, 0.0}[c.draw(3)], (double[]){std::nextafter(0.0, 1.0), -std::nextafter(0.0, 1.0), 2.220446049250313e-16}[c.draw(3)]); c.label("scalar:im-one-ulp-from-0"); break;
+            default: z = (cd[]){cd(-0.0, 0.0), cd(0.0, -0.0), cd(1.0, -0.0), cd(-1.0, -0.0)}[c.draw(4)]; c.label("scalar:signed-zero-variants-of-0/+-1"); break;
+            }
+        }
+        c.note("make_scalar(%.17g%+.17gj)%s", z.real(), z.imag(), special ? "  [special value]" : "");
         log.clear();
         int h = vnacal_make_scalar_parameter(vc, mkc(z));
         int s = vnacal_make_scalar_parameter(sh, mkc(z));
@@ -310,6 +327,10 @@ struct H {
         ParM p; p.kind = ParM::SCALAR; p.gamma = z; p.n = 4; p.shadow = s;
         made(h, p, "vnacal_make_scalar_parameter");
         c.note("  -> h%d", h);
+        if (special && c.boolean()) {      // straight into a standard, so that the solve / clone / content oracles see the value
+            std::vector<int> v; for (int i = 0; i < 3; i++) if (nw[i].vn && nw[i].ports == 1 && nw[i].stds.size() < 60) v.push_back(i);
+            if (!v.empty()) { add_reflect(v[c.draw(v.size())], h); c.label("special-scalar-in-standard"); }
+        }
     }
     void op_make_vector() {
         int n = (int)c.range(1, 4);
